@@ -9,7 +9,7 @@ import (
 
 // C02 / P-blockers: the model end-blocker returns normally from every pre-state that satisfies the record
 // invariants (baseapp does not recover panics outside DeliverTx). The other blockers are covered by
-// Ob_C02_NodeEndBlock, Ob_C08C02_BeginBlocker_Mint and the HandleTimeoutOrder / HandleExpiredShard obligations
+// Ob_C02C19_NodeEndBlock, Ob_C08C02_BeginBlocker_Mint and the HandleTimeoutOrder / HandleExpiredShard obligations
 // (an uncaught panic there is a violation of label no-panic).
 func Ob_C02_ModelEndBlocker() {
 	w := NewWorld()
